@@ -155,6 +155,60 @@ pub fn hist_case(line: &str, wrapped_ref: bool) -> String {
   out.join(" ")
 }
 
+/// `fhist <src> <nthreads> (<n> <op>*)*`: the threads run their programs on ONE shared object and
+/// are released together (no scheduler); answers in thread-major order, then the reference answers
+/// of freshly built objects.
+pub fn fhist_case(line: &str) -> String {
+  let mut t = Toks::new(line);
+  t.next();
+  t.next();
+  let start = t.pos;
+  let mut ctx = Ctx::default();
+  let obj: BoxSource = build(&mut t, &mut ctx).boxed();
+  let nthreads = t.num() as usize;
+  let progs: Vec<Vec<String>> = (0..nthreads)
+    .map(|_| parse_hops(&mut t).iter().map(|s| s.to_string()).collect())
+    .collect();
+  let barrier = std::sync::Arc::new(std::sync::Barrier::new(nthreads));
+  let handles: Vec<_> = progs
+    .iter()
+    .cloned()
+    .map(|ops| {
+      let mut mine: BoxSource = obj.clone();
+      let b = barrier.clone();
+      std::thread::spawn(move || {
+        b.wait();
+        ops.iter().map(|op| guarded_hop(&mut mine, op)).collect::<Vec<String>>()
+      })
+    })
+    .collect();
+  let mut out = Vec::new();
+  let mut i = 0;
+  for h in handles {
+    match h.join() {
+      Ok(answers) => {
+        for a in answers {
+          out.push(format!("a{}={}", i, a));
+          i += 1;
+        }
+      }
+      Err(_) => out.push(format!("a{}=PANIC", i)),
+    }
+  }
+  let mut i = 0;
+  for ops in &progs {
+    for op in ops {
+      let mut t2 = Toks::new(line);
+      t2.pos = start;
+      let mut ctx2 = Ctx::default();
+      let mut fresh = build(&mut t2, &mut ctx2).boxed();
+      out.push(format!("r{}={}", i, guarded_hop(&mut fresh, op)));
+      i += 1;
+    }
+  }
+  out.join(" ")
+}
+
 const FINAL_OPS: [&str; 8] = ["hash", "src", "buf", "m1", "m0", "s10", "s00", "hash"];
 
 pub fn pair_case(t: &mut Toks) -> String {
